@@ -887,3 +887,272 @@ Proof.
   destruct (vario true start count (mkAcc m [] [] (map Val vals))) as [ok a']. simpl in F. subst ok.
   eexists. eexists. reflexivity.
 Qed.
+
+(* ---- NCgenio: strided requests reaching outside the extent ------------------------------------- *)
+Lemma vario_loop_shape : forall w n positions a,
+  is_recvar (acc_m a) = false ->
+  m_shape (acc_m (snd (vario_loop w n positions a))) = m_shape (acc_m a).
+Proof.
+  induction positions as [| p0 rest IH]; intros a Hr; auto.
+  cbn [vario_loop]. rewrite coordck_fixed by auto.
+  destruct (any2 coordck_bad p0 (m_shape (acc_m a))); auto.
+  destruct (xdr_vdata (acc_m a) w (varoffset (acc_m a) p0) n (firstn (Z.to_nat n) (acc_vals a)))
+    as [[[m2 tr2] cs] |] eqn:X; auto.
+  pose proof (xdr_vdata_shape _ _ _ _ _ _ _ _ X) as Sh.
+  rewrite IH; cbn [acc_m]; auto. rewrite (is_recvar_shape _ _ Sh). auto.
+Qed.
+
+Lemma vario_shape : forall w start edges a,
+  is_recvar (acc_m a) = false -> (0 < length (m_shape (acc_m a)))%nat ->
+  m_shape (acc_m (snd (vario w start edges a))) = m_shape (acc_m a).
+Proof.
+  intros w start edges a Hr Hn. unfold vario.
+  destruct (m_shape (acc_m a)) as [| d0 dr] eqn:Sh. simpl in Hn; lia.
+  rewrite <- Sh. rewrite coordck_fixed by auto.
+  destruct (any2 coordck_bad start (m_shape (acc_m a))); auto.
+  cbn [acc_m]. rewrite Hr. cbn [andb].
+  destruct (vario_plan (acc_m a) start edges) as [[ps n] |]; auto.
+  destruct (n =? 0); auto.
+  pose proof (vario_loop_shape w n ps (mkAcc (acc_m a) (acc_tr a ++ []) (acc_cells a) (acc_vals a)) Hr) as L.
+  destruct (vario_loop w n ps (mkAcc (acc_m a) (acc_tr a ++ []) (acc_cells a) (acc_vals a))) as [ok a2].
+  cbn [snd acc_m] in *. destruct ok; cbn [snd acc_m]; auto.
+  destruct (m_numrecs (acc_m a2) <? hd 0 start + hd 0 edges); cbn [acc_m set_store m_shape]; auto.
+Qed.
+
+Lemma genio_loop_false : forall w io positions a,
+  is_recvar (acc_m a) = false -> (0 < length (m_shape (acc_m a)))%nat ->
+  length io = length (m_shape (acc_m a)) -> Forall (fun c => 1 <= c) io ->
+  (exists p, In p positions /\ length p = length (m_shape (acc_m a)) /\
+             all4 dim_in p (ones p) io (m_shape (acc_m a)) = false) ->
+  fst (genio_loop w io positions a) = false.
+Proof.
+  induction positions as [| p0 rest IH]; intros a Hr Hn Hio Hpos [p [Hin [Hl Hbad]]]. contradiction.
+  cbn [genio_loop].
+  pose proof (vario_shape w p0 io a Hr Hn) as Sh.
+  destruct Hin as [-> | Hin].
+  - pose proof (vario_oob_fails w a p io Hr Hn Hl Hio Hpos Hbad) as F.
+    destruct (vario w p io a) as [ok a1]. simpl in F. subst ok. reflexivity.
+  - destruct (vario w p0 io a) as [ok a1]. cbn [snd] in Sh. destruct ok; [| reflexivity].
+    apply IH; try rewrite Sh; auto.
+    + rewrite (is_recvar_shape _ _ Sh). auto.
+    + exists p. auto.
+Qed.
+
+Lemma in_zrange : forall n s t j, (j < n)%nat -> In (s + Z.of_nat j * t) (zrange s t n).
+Proof.
+  induction n; intros. lia.
+  destruct j; simpl zrange.
+  - left. simpl. lia.
+  - right. replace (s + Z.of_nat (S j) * t) with ((s + t) + Z.of_nat j * t) by lia. apply IHn. lia.
+Qed.
+
+Lemma slab_start_in : forall s t c, length t = length s -> length c = length s ->
+  Forall (fun x => 1 <= x) c -> In s (slab_cells s t c).
+Proof.
+  induction s; destruct t, c; simpl; intros; try discriminate; auto.
+  inversion H1; subst. apply in_flat_map. exists a. split.
+  - replace a with (a + Z.of_nat 0 * z) at 1 by (simpl; lia). apply in_zrange. lia.
+  - apply in_map. apply IHs; auto.
+Qed.
+
+(** a strided request with positive counts and strides that leaves the shape selects a cell outside the shape *)
+Lemma strided_oob_cell : forall s t c d,
+  length t = length s -> length c = length s -> length d = length s ->
+  Forall (fun x => 1 <= x) c -> Forall (fun x => 1 <= x) t ->
+  all4 dim_in s t c d = false ->
+  exists p, In p (slab_cells s t c) /\ any2 coordck_bad p d = true.
+Proof.
+  induction s as [| s0 s IH]; destruct t as [| t0 t], c as [| c0 c], d as [| d0 d];
+    intros Ht Hc Hd Fc Ft H; try discriminate.
+  inversion Fc as [| ? ? Hc0 Fc']; inversion Ft as [| ? ? Ht0 Ft']; subst.
+  cbn [all4] in H. cbn [slab_cells].
+  assert (St : In s (slab_cells s t c)) by (apply slab_start_in; simpl in *; auto; lia).
+  assert (I0 : In s0 (zrange s0 t0 (Z.to_nat c0))).
+  { replace s0 with (s0 + Z.of_nat 0 * t0) at 1 by (simpl; lia). apply in_zrange. lia. }
+  destruct (dim_in s0 t0 c0 d0) eqn:D.
+  - simpl in H. destruct (IH t c d) as [p [Pin Pbad]]; simpl in *; auto; try lia.
+    exists (s0 :: p). split.
+    + apply in_flat_map. exists s0. split; auto. apply in_map; auto.
+    + cbn [any2]. rewrite Pbad. apply orb_true_r.
+  - unfold dim_in in D.
+    destruct (0 <=? s0) eqn:Z0.
+    + simpl in D. apply Z.ltb_ge in D. unfold reach in D.
+      exists ((s0 + (c0 - 1) * t0) :: s). split.
+      * apply in_flat_map. exists (s0 + (c0 - 1) * t0). split.
+        -- replace (c0 - 1) with (Z.of_nat (Z.to_nat (c0 - 1))) by lia. apply in_zrange. lia.
+        -- apply in_map; auto.
+      * cbn [any2]. rewrite coordck_bad_spec.
+        replace (s0 + (c0 - 1) * t0 <? d0) with false by (symmetry; apply Z.ltb_ge; lia).
+        rewrite andb_false_r. reflexivity.
+    + exists (s0 :: s). split.
+      * apply in_flat_map. exists s0. split; auto. apply in_map; auto.
+      * cbn [any2]. rewrite coordck_bad_spec. rewrite Z0. reflexivity.
+Qed.
+
+Lemma bad_cell_all4 : forall p d io, length p = length d -> length io = length d ->
+  Forall (fun c => 1 <= c) io -> any2 coordck_bad p d = true -> all4 dim_in p (ones p) io d = false.
+Proof.
+  induction p; destruct d, io; simpl; intros; try discriminate.
+  inversion H1; subst. rewrite coordck_bad_spec in H2.
+  destruct ((0 <=? a) && (a <? z)) eqn:E; simpl in H2.
+  - rewrite (IHp d io) by (auto; lia). apply andb_false_r.
+  - unfold dim_in, reach. apply andb_false_iff. left.
+    apply andb_false_iff in E. apply andb_false_iff. destruct E as [E | E]; [left; auto | right].
+    apply Z.ltb_ge in E. apply Z.ltb_ge. lia.
+Qed.
+
+Lemma unit_last_spec : forall t e, truth (genio_unit_last t e e) = (t =? 1).
+Proof. intros. unfold truth, genio_unit_last. rewrite Z.eqb_refl. destruct (t =? 1); reflexivity. Qed.
+
+Lemma cartesian_snoc : forall A x, cartesian (A ++ [[x]]) = map (fun p => p ++ [x]) (cartesian A).
+Proof.
+  induction A as [| ax A IH]; intros; simpl; auto.
+  rewrite map_flat_map. apply flat_map_ext'. intros i _. rewrite IH, !map_map. reflexivity.
+Qed.
+
+Lemma map3_snoc : forall {A} (f : Z -> Z -> Z -> A) a b c x y z, length b = length a -> length c = length a ->
+  map3 f (a ++ [x]) (b ++ [y]) (c ++ [z]) = map3 f a b c ++ [f x y z].
+Proof. induction a; destruct b, c; simpl; intros; try discriminate; auto. f_equal. apply IHa; lia. Qed.
+
+Lemma map3_length : forall {A} (f : Z -> Z -> Z -> A) a b c, length b = length a -> length c = length a ->
+  length (map3 f a b c) = length a.
+Proof. induction a; destruct b, c; simpl; intros; try discriminate; auto. Qed.
+
+Lemma ones_repeat : forall p, ones p = repeat 1 (length p).
+Proof. induction p; simpl; auto. f_equal. auto. Qed.
+
+Lemma existsb_false_ge1 : forall (f : Z -> bool) l, (forall x, 1 <= x -> f x = false) ->
+  Forall (fun x => 1 <= x) l -> existsb f l = false.
+Proof. induction 2; simpl; auto. rewrite H by auto. auto. Qed.
+
+Lemma repeat1_ge1 : forall n, Forall (fun c => 1 <= c) (repeat 1 n).
+Proof. induction n; simpl; constructor; auto. lia. Qed.
+
+Lemma snoc_split : forall (l : list Z), l <> [] -> exists l' x, l = l' ++ [x].
+Proof. intros. destruct (exists_last H) as [l' [x E]]. eauto. Qed.
+
+(** NCgenio on a fixed-size variable: a request with positive counts and strides that reaches outside the shape
+    in any dimension returns -1 (each odometer position is an NCvario call; one of them is rejected) *)
+Lemma genio_oob_fails : forall w a start count stride,
+  is_recvar (acc_m a) = false -> (0 < length (m_shape (acc_m a)))%nat ->
+  length start = length (m_shape (acc_m a)) -> length count = length (m_shape (acc_m a)) ->
+  length stride = length (m_shape (acc_m a)) ->
+  Forall (fun c => 1 <= c) count -> Forall (fun t => 1 <= t) stride ->
+  all4 dim_in start stride count (m_shape (acc_m a)) = false ->
+  fst (genio w start count stride a) = false.
+Proof.
+  intros w a start count stride Hr Hn Hs Hc Ht Fc Ft Hout.
+  unfold genio. destruct (m_shape (acc_m a)) as [| d0 dr] eqn:Sh. simpl in Hn; lia.
+  rewrite <- Sh in *.
+  rewrite (existsb_false_ge1 (fun t => truth (genio_bad_stride t)) stride); auto.
+  2:{ intros x Hx. unfold truth, genio_bad_stride. replace (x <? 1) with false by (symmetry; apply Z.ltb_ge; lia). reflexivity. }
+  rewrite (existsb_false_ge1 (fun c => c <? 0) count); auto. 2:{ intros; apply Z.ltb_ge; lia. }
+  rewrite (existsb_false_ge1 (fun c => c =? 0) count); auto. 2:{ intros; apply Z.eqb_neq; lia. }
+  destruct (snoc_split start) as [sl [sx Es]]. { intro; subst; simpl in *; lia. }
+  destruct (snoc_split count) as [cl [cx Ec]]. { intro; subst; simpl in *; lia. }
+  destruct (snoc_split stride) as [tl [tx Et]]. { intro; subst; simpl in *; lia. }
+  destruct (snoc_split (m_shape (acc_m a))) as [dl [dx Ed]]. { intro E; rewrite E in Hn; simpl in Hn; lia. }
+  rewrite Es, Ec, Et, Ed in *. rewrite !app_length in *. cbn [length] in *.
+  assert (Ll : length cl = length sl /\ length tl = length sl /\ length dl = length sl) by lia.
+  destruct Ll as [Lc [Lt Ld]].
+  rewrite !last_last. replace (Nat.pred (length sl + 1)) with (length sl) by lia.
+  rewrite unit_last_spec.
+  apply Forall_app in Fc. destruct Fc as [Fcl Fcx]. inversion Fcx as [| ? ? Hcx _]; subst.
+  apply Forall_app in Ft. destruct Ft as [Ftl Ftx]. inversion Ftx as [| ? ? Htx _]; subst.
+  rewrite all4_app in Hout by lia. cbn [all4] in Hout. rewrite andb_true_r in Hout.
+  rewrite map3_snoc by lia.
+  apply genio_loop_false; auto.
+  1: rewrite Ed, app_length; cbn [length]; lia.
+  1: rewrite Ed, app_length; cbn [length];
+     destruct (tx =? 1); rewrite ?app_length, ?repeat_length; simpl; lia.
+  1: destruct (tx =? 1); [apply Forall_app; split; [apply repeat1_ge1 | constructor; auto] | apply repeat1_ge1].
+  rewrite Ed, app_length; cbn [length].
+  - destruct (tx =? 1) eqn:U.
+    + (* unity stride in the last dimension: the odometer runs over the leading dimensions only *)
+      apply Z.eqb_eq in U. subst tx.
+      rewrite firstn_exact by (apply map3_length; lia).
+      rewrite cartesian_snoc, genio_positions by (auto; lia).
+      destruct (all4 dim_in sl tl cl dl) eqn:Lead.
+      * simpl in Hout.
+        exists (sl ++ [sx]). split; [| split].
+        -- apply in_map_iff. exists sl. split; auto. apply slab_start_in; auto; lia.
+        -- rewrite !app_length. simpl. lia.
+        -- replace (ones (sl ++ [sx])) with (ones sl ++ [1]) by (unfold ones; rewrite map_app; reflexivity).
+           rewrite all4_app by (unfold ones; rewrite ?map_length, ?repeat_length; lia).
+           cbn [all4]. rewrite Hout. rewrite andb_false_r. reflexivity.
+      * destruct (strided_oob_cell sl tl cl dl) as [p [Pin Pbad]]; auto; try lia.
+        assert (Lp : length p = length sl) by (apply (slab_cells_len sl tl cl p); auto).
+        exists (p ++ [sx]). split; [| split].
+        -- apply in_map_iff. exists p. auto.
+        -- rewrite !app_length. simpl. lia.
+        -- replace (ones (p ++ [sx])) with (ones p ++ [1]) by (unfold ones; rewrite map_app; reflexivity).
+           rewrite all4_app by (unfold ones; rewrite ?map_length, ?repeat_length; lia).
+           rewrite (bad_cell_all4 p dl (repeat 1 (length sl))); auto; try lia.
+           rewrite repeat_length; lia. apply repeat1_ge1.
+    + rewrite <- map3_snoc by lia. rewrite genio_positions by (rewrite ?app_length; simpl; auto; try lia; apply Forall_app; auto).
+      destruct (strided_oob_cell (sl ++ [sx]) (tl ++ [tx]) (cl ++ [cx]) (dl ++ [dx])) as [p [Pin Pbad]];
+        rewrite ?app_length; simpl; auto; try lia; try (apply Forall_app; auto).
+      { rewrite all4_app by lia. cbn [all4]. rewrite andb_true_r. exact Hout. }
+      assert (Lp : length p = length (sl ++ [sx])).
+      { apply (slab_cells_len _ (tl ++ [tx]) (cl ++ [cx]) p); rewrite ?app_length; simpl; auto; lia. }
+      rewrite app_length in Lp. simpl in Lp.
+      exists p. split; [auto | split; [lia |]].
+      apply bad_cell_all4; rewrite ?app_length, ?repeat_length; simpl; auto; try lia. apply repeat1_ge1.
+Qed.
+
+Lemma forallb_ones : forall stride (start : list Z), forallb (fun t => t =? 1) stride = true ->
+  length stride = length start -> stride = ones start.
+Proof.
+  induction stride; destruct start; simpl; intros; try discriminate; auto.
+  apply andb_prop in H. destruct H as [A B]. apply Z.eqb_eq in A. subst. f_equal. apply IHstride; auto.
+Qed.
+
+(** SDwritedata on a fixed-size dataset, any rank/shape, stride NULL or any strides >= 1, positive counts:
+    a request reaching outside the shape in any dimension returns FAIL *)
+Lemma sd_write_rejected : forall m us start stride count vals,
+  is_recvar m = false -> (0 < length (m_shape m))%nat ->
+  length start = length (m_shape m) -> length count = length (m_shape m) ->
+  (us = true -> length stride = length (m_shape m) /\ Forall (fun t => 1 <= t) stride) ->
+  Forall (fun c => 1 <= c) count ->
+  all4 dim_in start (if us then stride else ones start) count (m_shape m) = false ->
+  exists m' tr, sd_write m us start stride count vals = (m', MRet (-1) tr).
+Proof.
+  intros m us start stride count vals Hr Hn Hs Hc Hu Fc Hout. unfold sd_write.
+  destruct us.
+  - destruct (Hu eq_refl) as [Ht Ft]. cbn [andb].
+    destruct (forallb (fun t => t =? 1) stride) eqn:A1; cbn [negb].
+    + rewrite (forallb_ones stride start A1) in Hout by lia.
+      pose proof (vario_oob_fails true (mkAcc m [] [] (map Val vals)) start count Hr Hn Hs Hc Fc Hout) as F.
+      destruct (vario true start count (mkAcc m [] [] (map Val vals))) as [ok a']. simpl in F. subst ok.
+      eexists. eexists. reflexivity.
+    + pose proof (genio_oob_fails true (mkAcc m [] [] (map Val vals)) start count stride Hr Hn Hs Hc Ht Fc Ft Hout) as F.
+      destruct (genio true start count stride (mkAcc m [] [] (map Val vals))) as [ok a']. simpl in F. subst ok.
+      eexists. eexists. reflexivity.
+  - cbn [andb].
+    pose proof (vario_oob_fails true (mkAcc m [] [] (map Val vals)) start count Hr Hn Hs Hc Fc Hout) as F.
+    destruct (vario true start count (mkAcc m [] [] (map Val vals))) as [ok a']. simpl in F. subst ok.
+    eexists. eexists. reflexivity.
+Qed.
+
+(** SDreaddata, same statement (the stride check rejects most such requests before any transfer; the rest --
+    negative starts -- are rejected by NCcoordck inside NCgenio/NCvario) *)
+Lemma sd_read_rejected : forall m us start stride count,
+  is_recvar m = false -> (0 < length (m_shape m))%nat ->
+  length start = length (m_shape m) -> length count = length (m_shape m) ->
+  (us = true -> length stride = length (m_shape m) /\ Forall (fun t => 1 <= t) stride) ->
+  Forall (fun c => 1 <= c) count ->
+  all4 dim_in start (if us then stride else ones start) count (m_shape m) = false ->
+  exists m' cells tr, sd_read m us start stride count = (m', MRead (-1) cells tr).
+Proof.
+  intros m us start stride count Hr Hn Hs Hc Hu Fc Hout. unfold sd_read.
+  match goal with |- context [if ?b then (m, MRead (-1) [] []) else _] => destruct b end.
+  - eexists. eexists. eexists. reflexivity.
+  - destruct us.
+    + destruct (Hu eq_refl) as [Ht Ft].
+      pose proof (genio_oob_fails false (mkAcc m [] [] []) start count stride Hr Hn Hs Hc Ht Fc Ft Hout) as F.
+      destruct (genio false start count stride (mkAcc m [] [] [])) as [ok a']. simpl in F. subst ok.
+      eexists. eexists. eexists. reflexivity.
+    + pose proof (vario_oob_fails false (mkAcc m [] [] []) start count Hr Hn Hs Hc Fc Hout) as F.
+      destruct (vario false start count (mkAcc m [] [] [])) as [ok a']. simpl in F. subst ok.
+      eexists. eexists. eexists. reflexivity.
+Qed.
